@@ -31,6 +31,16 @@ def state_delta(e, p=None):
     if not is_rmw(e) or e.op == "remove":
         return None, None, "channel state written with %s, not a read-modify-write of the stored entry" % e.op
     base, fields = update_base(e.value)
+    if base[0] == "struct" and not fields and {"outstanding", "total_sent"} <= set(n for n, _ in base[2]):
+        # the entry taken apart and rebuilt (`let ChannelState { mut outstanding, mut total_sent } = cur; ..; ChannelState { outstanding,
+        # total_sent }`): each field is computed from the same field of one previous entry - that entry is the base
+        cands = None
+        for f, v in base[2]:
+            bs = set(a[1] for a in nf(v).atoms if a[0] == "field" and a[2] == f)
+            cands = bs if cands is None else (cands & bs)
+        if cands and len(cands) == 1:
+            fields = dict(base[2])
+            base = list(cands)[0]
     if base == ("vfield", e.old, "Some", "0"):
         kind = "present"
     elif base == ("unwrap_or", e.old, ("default", "?")) or \
